@@ -87,11 +87,18 @@ def run(ctx):
             pushes = [e for e in p.events if ev_is(e, "Vec::push") and isinstance(e.args[1], tuple) and e.args[1][0] == "agg" and e.args[1][1] in ("tuple", "adt") and len(e.args[1][4]) == 3
                       and any(agg_variant(x) and agg_variant(x)[0] == OP for x in e.args[1][4])]
             ch = None
+            ruled_out = set()
             for c in p.conds():
                 m = str_eq_lit(c.term)
                 if m and m[2] in (">", "<") and ((c.fact == ("eq", True)) != m[0]):
                     ch = m[2]
                     item = m[1]
+                elif m and m[2] in (">", "<") and isinstance(c.fact[1], bool):
+                    ruled_out.add(m[2])
+            if ch is None and len(ruled_out) == 1:
+                # only one of the two searched characters is tested (`matched == ">"`): not that one means the other
+                # (the searched set is exactly {'<', '>'}: checked below as `searched-characters`)
+                ch = ({">", "<"} - ruled_out).pop()
             eqs = []
             for c in p.conds():
                 m = next_is_eq(c.term)
